@@ -1,1 +1,295 @@
-/-! C23 — property theorems (stub: nothing proved yet). -/
+import B6.Lemmas.EvalGuards
+import B6.Props.C21
+/-!
+C23 — evaluating a request never crashes the server.
+
+What is a theorem here and what is not.  The property quantifies over every expression tree over the
+whole function library (140 Go functions) and every world; the decisive part of this check is the
+**sweep** of `harness/cmd/c23` (labelled exploration in the evidence).  The theorems below cover the
+path every request takes around the library - decoding, `Simplify`, the VM, the literal conversion -
+for the modelled fragment, and the library functions whose missing guards the sweep found, as repaired:
+
+* `decode_never_panics`: for **every** wire tree (any message field absent, any enum number) the
+  decoder answers a value or an error.  `decode_old_counterexamples`: five requests on which the code
+  before the fixes panicked (each replayed by the harness corpus).
+* `interp_never_panics`, `no_panic_partial`: for every request whose decoded expression is lambda-free
+  (global functions as values, partial applications, calls of calls, higher-order builtins calling
+  back - `Props/C21.vm_first_order`'s fragment), every fuel: `serviceEval` is a value or an error.
+  `no_panic_statement` (all requests) is **false** for the code as it is: `no_panic_counterexample`
+  (C21's finding `closure-registers`, reached through the whole service path).
+* guards the VM establishes before a builtin's Go body runs: `arity_guard` (too many arguments is an
+  error), `convert_guard` (the body sees exactly as many arguments as it has parameters, each of its
+  parameter's type), `callable_guard` (calling a non-function is an error); the stack and register
+  bounds are `Props/C21.stack_shape`, listed as an obligation of this property too.
+* library: `count_never_panics` / `count_old_counterexample` (unhashable map keys),
+  `histogram_never_panics` / `histogram_old_counterexample` (error before use; mixed values),
+  `sample_points_terminates` / `sample_points_old_hangs` / `sample_points_guard`,
+  `add_feature_never_panics` / `add_feature_old_counterexample`.
+-/
+namespace B6.Props.C23
+open B6.Model B6.Model.VM B6.Model.EvalGuards B6.Lemmas.EvalGuards
+
+/-! ### decoding -/
+
+/-- **decode_never_panics.** Whatever tree of messages arrives - the request, a function or a lambda
+body missing, a literal or a query without its value, an enum number nobody defined, a cap without a
+centre, keys and values of different lengths - `ExpressionFromProto` returns an expression or an error. -/
+theorem decode_never_panics (request : Option PNode) : decode request ≠ .error .panic :=
+  decode_noPanic request
+
+/-- the code before `fixes/C23-{expression-from-proto-nil,feature-type-from-proto,point-proto-nil,
+geojson-literal-from-proto}.patch`: an empty request, a call without its function, a typed query of
+type 9, a cap query without its centre, a GeoJSON literal -/
+theorem decode_old_counterexamples :
+    decodeOld none = .error .panic ∧
+    decodeOld (some (.call none [.lit (.int 1)] false)) = .error .panic ∧
+    decodeOld (some (.lit (.query (.typed 9 (some .all))))) = .error .panic ∧
+    decodeOld (some (.lit (.query (.cap none "156.75")))) = .error .panic ∧
+    decodeOld (some (.call (some (.sym "pair")) [.lit (.other "nil" ""), .lit .geojson] false)) = .error .panic :=
+  ⟨rfl, rfl, rfl, rfl, rfl⟩
+
+/-- the same requests on the repaired decoder -/
+example : decode none = .error .error ∧
+    decode (some (.call none [.lit (.int 1)] false)) = .error .error ∧
+    decode (some (.lit (.query (.typed 9 (some .all))))) = .ok (.lit (.query (.typed "invalid" (.other "all")))) ∧
+    decode (some (.lit (.query (.cap none "156.75")))) = .ok (.lit (.query (.other "cap:0,0:156.75"))) :=
+  ⟨rfl, rfl, rfl, rfl⟩
+
+/-! ### the service path -/
+
+/-- the reference interpreter has no panic outcome at all -/
+theorem interp_never_panics (fuel : Nat) (e : Expr) : interp fuel e ≠ .error .panic :=
+  interp_noPanic fuel e
+
+/-- the full statement: no request makes the service path panic -/
+def no_panic_statement : Prop :=
+  ∀ (fuel : Nat) (request : Option PNode), serviceEval fuel request ≠ .error .panic
+
+/-- **no_panic_partial.** For every request that decodes to a lambda-free expression, and every
+fuel, `service.Evaluate` (decode, Simplify, compile, run, literal) answers a value or an error.
+The guards of the builtins are discharged inside: `vm_first_order` shows the VM's run equal to the
+interpreter's, whose builtins only ever see converted arguments. -/
+theorem no_panic_partial (fuel : Nat) (request : Option PNode) (e : Expr)
+    (hd : decode request = .ok e) (hl : e.lambdaFree = true) :
+    serviceEval fuel request ≠ .error .panic := by
+  unfold serviceEval
+  rw [hd]
+  simp only [evalDecoded]
+  cases hs : simplify e with
+  | none => simp
+  | some s =>
+    have hsl := simplify_lambdaFree e s hl hs
+    have hv := B6.Props.C21.vm_first_order fuel s hsl
+    have hi := interp_noPanic fuel s
+    simp only []
+    rw [hv]
+    cases hr : interp fuel s with
+    | error x =>
+      simp only [NoPanic, hr] at hi
+      intro h
+      injection h with h
+      exact hi (by rw [h])
+    | ok v =>
+      simp only []
+      split <;> simp
+
+/-- the outcome of such a request is one of: a value, an error, "the model ran out of fuel" -/
+theorem no_panic_partial_outcome (fuel : Nat) (request : Option PNode) (e : Expr)
+    (hd : decode request = .ok e) (hl : e.lambdaFree = true) :
+    (∃ v, serviceEval fuel request = .ok v) ∨ serviceEval fuel request = .error .error ∨
+      serviceEval fuel request = .error .fuel := by
+  have h := no_panic_partial fuel request e hd hl
+  cases hr : serviceEval fuel request with
+  | ok v => exact .inl ⟨v, rfl⟩
+  | error x =>
+    cases x with
+    | error => exact .inr (.inl rfl)
+    | fuel => exact .inr (.inr rfl)
+    | panic => exact absurd hr h
+
+/-- non-vacuity: `((add-ints 1) (first (pair 2 3)))` arrives complete, is lambda-free, evaluates to 3 -/
+example :
+    let req : PNode := .call (some (.call (some (.sym "add")) [.lit (.int 1)] false))
+      [.call (some (.sym "first")) [.call (some (.sym "pair")) [.lit (.int 2), .lit (.int 3)] false] false] false
+    (∃ e, decode (some req) = .ok e ∧ e.lambdaFree = true) ∧ serviceEval 20 (some req) = .ok (.int 3) :=
+  ⟨⟨_, rfl, rfl⟩, rfl⟩
+
+private def pl (ps : List String) (b : PNode) : PNode := .lam ps (some b)
+private def pc (f : PNode) (as : List PNode) : PNode := .call (some f) as false
+
+/-- `((({a b -> {c -> add-ints a c}}) 1) 2) 3` as it arrives -/
+def escapeRequest : PNode :=
+  pc (pc (pc (pl ["a", "b"] (pl ["c"] (pc (.sym "add") [.sym "a", .sym "c"]))) [.lit (.int 1)]) [.lit (.int 2)]) [.lit (.int 3)]
+
+/-- through the whole service path the closure of C21's finding still panics -/
+theorem escape_request_panics : serviceEval 50 (some escapeRequest) = .error .panic := rfl
+
+theorem no_panic_counterexample : ¬ no_panic_statement := fun h => h 50 (some escapeRequest) escape_request_panics
+
+/-! ### guards the VM establishes before a builtin runs -/
+
+/-- more arguments than the Go function has parameters: an error (`expected %d arguments, found %d`),
+before the stack is touched -/
+theorem arity_guard (code : List Instr) (fuel : Nat) (b : Builtin) (n : Nat) (st : St) (h : n > b.arity) :
+    callFromStack code (fuel + 1) (.builtin b) n st = .error .error := by
+  simp [callFromStack, h]
+
+/-- the Go type of a parameter, as a predicate on model values -/
+def hasTy : Ty → Val → Bool
+  | .any, _ => true
+  | .int, .int _ => true
+  | .str, .str _ => true
+  | .pair, .pair _ _ => true
+  | .query, .query _ => true
+  | .callable, v => v.isCallable
+  | .func n, v => v.isCallable && v.arity == some n
+  | _, _ => false
+
+theorem convert_hasTy {t : Ty} {v c : Val} (h : convert t v = .ok c) : hasTy t c = true := by
+  unfold convert at h
+  split at h <;> first
+    | (injection h with h; subst h; simp [hasTy, Val.isCallable]; done)
+    | (split at h <;> first
+        | (injection h with h; subst h; simp_all [hasTy]; done)
+        | cases h)
+    | cases h
+
+def allTy : List Ty → List Val → Bool
+  | [], [] => true
+  | t :: ts, v :: vs => hasTy t v && allTy ts vs
+  | _, _ => false
+
+/-- **convert_guard.** `goCall.CallFromStack` hands the Go function exactly as many arguments as it has
+parameters, each of the parameter's type - or returns an error without calling it. -/
+theorem convert_guard : ∀ (ts : List Ty) (vs cs : List Val), convertAll ts vs = .ok cs → allTy ts cs = true
+  | [], [], cs, h => by simp [convertAll] at h; subst h; rfl
+  | [], _ :: _, _, h => by simp [convertAll] at h
+  | _ :: _, [], _, h => by simp [convertAll] at h
+  | t :: ts, v :: vs, cs, h => by
+    simp only [convertAll, bind, Except.bind] at h
+    cases hc : convert t v with
+    | error e => simp [hc] at h
+    | ok c =>
+      cases hcs : convertAll ts vs with
+      | error e => simp [hc, hcs] at h
+      | ok cs' =>
+        simp [hc, hcs, pure, Except.pure] at h
+        subst h
+        simp [allTy, convert_hasTy hc, convert_guard ts vs cs' hcs]
+
+example : convertAll [.int, .func 1] [.int 3, .builtin .first] = .ok [.int 3, .builtin .first] := rfl
+example : convertAll [.int] [.str "x"] = .error .error := rfl
+
+/-- calling what is not a function (`((add-ints 1 2) 3)`): an error, not an interface-conversion panic
+(fix C21-call-non-callable) -/
+theorem callable_guard (call : Val → Nat → St → Res St) (is : List Instr) (n : Nat) (f : Val) (rest : List Val)
+    (regs : List (Nat × Val)) (h : vmCallable f = false) :
+    execList call (.callStack n :: is) { stack := f :: rest, regs := regs } = .error .error := by
+  simp [execList, h]
+
+/-! ### library functions -/
+
+/-- **count_never_panics.** `count-values`, `count-keys`, `count-valid-keys`, `sum-by-key` and the
+histogram's `countValues`, for every collection (unhashable items, failing iteration): no panic. -/
+theorem count_never_panics (sel : Val × Val → Val) :
+    ∀ (items : List (Val × Val)) (fails : Bool) (acc : List (Val × Nat)), countWith true sel items fails acc ≠ .error .panic
+  | [], fails, acc => by cases fails <;> simp [countWith]
+  | it :: rest, fails, acc => by
+    simp only [countWith]
+    split
+    · exact count_never_panics sel rest fails _
+    · simp
+
+/-- before fix C23-count-unhashable: a collection holding a collection -/
+theorem count_old_counterexample :
+    countValuesOld ⟨[(.int 0, .other "coll" "2")], false⟩ = .error .panic ∧
+    countValues ⟨[(.int 0, .other "coll" "2")], false⟩ = .error .error := ⟨rfl, rfl⟩
+
+example : countValues ⟨[(.int 0, .str "a")], false⟩ = .ok [(.str "a", 1)] := rfl
+
+/-- **histogram_never_panics.** `NewHistogramFromCollection` for every collection. -/
+theorem histogram_never_panics (c : Src) : histogram c ≠ .error .panic := by
+  unfold histogram bucketed
+  have h := count_never_panics (·.2) c.items c.fails []
+  cases hc : countWith true (fun x => x.2) c.items c.fails [] with
+  | error e =>
+    simp only []
+    intro h'
+    injection h' with h'
+    exact h (by rw [hc, h'])
+  | ok kvs =>
+    simp only []
+    split
+    · cases kvs with
+      | nil => simp
+      | cons p ps =>
+        obtain ⟨k0, n0⟩ := p
+        simp only []
+        split <;> simp
+    · simp
+
+/-- before fixes C23-histogram-error-before-use and C23-histogram-mixed-values: a collection whose
+iteration fails; an int followed by a float -/
+theorem histogram_old_counterexample :
+    histogramOld ⟨[], true⟩ = .error .panic ∧
+    histogramOld ⟨[(.int 0, .int 1), (.int 1, .other "float" "2.5")], false⟩ = .error .panic ∧
+    histogram ⟨[], true⟩ = .error .error ∧
+    histogram ⟨[(.int 0, .int 1), (.int 1, .other "float" "2.5")], false⟩ = .error .error := ⟨rfl, rfl, rfl, rfl⟩
+
+theorem sampleLoop_finishes (one step : Int) (hs : 0 < step) :
+    ∀ (fuel : Nat) (j : Int) (n : Nat), one ≤ j + step * fuel → ∃ m, sampleLoop one step (fuel + 1) j n = some m
+  | 0, j, n, h => by
+    simp only [sampleLoop]
+    have : j ≥ one := by simpa using h
+    simp [this]
+  | fuel + 1, j, n, h => by
+    simp only [sampleLoop]
+    split
+    · exact ⟨_, rfl⟩
+    · have h2 : step * ((fuel : Int) + 1) = step * fuel + step := by rw [Int.mul_add, Int.mul_one]
+      have h3 : one ≤ (j + step) + step * fuel := by
+        have : ((fuel + 1 : Nat) : Int) = (fuel : Int) + 1 := by simp
+        rw [this, h2] at h
+        omega
+      exact sampleLoop_finishes one step hs fuel (j + step) (n + 1) h3
+
+/-- **sample_points_terminates.** With a positive step the walk along the path ends after at most
+`fuel + 1` iterations whenever `step * fuel` covers the path. -/
+theorem sample_points_terminates (one step : Int) (fuel : Nat) (hs : 0 < step) (hf : one ≤ step * fuel) :
+    ∃ m, samplePoints one step (fuel + 1) = .ok (some m) := by
+  obtain ⟨m, hm⟩ := sampleLoop_finishes one step hs fuel 0 0 (by simpa using hf)
+  refine ⟨m, ?_⟩
+  simp [samplePoints, hm, Int.not_le.mpr hs]
+
+/-- **sample_points_old_hangs.** Without the guard: a step of zero or less never reaches the end of a
+path of positive length, however long one waits. -/
+theorem sample_points_old_hangs (one step : Int) (hs : step ≤ 0) :
+    ∀ (fuel : Nat) (j : Int) (n : Nat), j < one → sampleLoop one step fuel j n = none
+  | 0, _, _, _ => rfl
+  | fuel + 1, j, n, h => by
+    simp only [sampleLoop]
+    have : ¬ j ≥ one := by omega
+    simp only [this, if_false]
+    exact sample_points_old_hangs one step hs fuel (j + step) (n + 1) (by omega)
+
+/-- fix C23-sample-points-distance: such a step is refused before the loop -/
+theorem sample_points_guard (one step : Int) (fuel : Nat) (hs : step ≤ 0) :
+    samplePoints one step fuel = .error .error := by simp [samplePoints, hs]
+
+example : samplePoints 1000 300 5 = .ok (some 5) := rfl
+example : sampleLoop 1000 0 100000 0 0 = none := sample_points_old_hangs 1000 0 (by decide) _ _ _ (by decide)
+
+/-- **add_feature_never_panics.** Adding a feature whose representation does not fit the type of its ID
+fails with an error (`ValidateFeature`), for every combination. -/
+theorem add_feature_never_panics (idType repr : String) : addFeature idType repr ≠ .error .panic := by
+  unfold addFeature
+  split
+  · simp
+  · split <;> simp
+
+/-- before fix C23-validate-feature-representation: `add-point … /relation/…/700 …` -/
+theorem add_feature_old_counterexample :
+    addFeatureOld "relation" "generic" = .error .panic ∧ addFeature "relation" "generic" = .error .error :=
+  ⟨rfl, rfl⟩
+
+end B6.Props.C23
